@@ -40,7 +40,7 @@ B = 'dataflows/base/'
 H = 'dataflows/helpers/'
 mut('C01-row-processor-shared-dict', (H + 'row_processor.py', "        ret = self.func(row)\n        if ret is None:\n            return row\n        return ret\n",
      "        ret = self.func(row)\n        if ret is None:\n            return row\n        self._last = getattr(self, '_last', None) or {}\n        self._last.clear()\n        self._last.update(ret)\n        return self._last\n"))
-mut('C01-no-deepcopy-of-upstream-descriptor', (B + 'datastream_processor.py', "Package(descriptor=copy.deepcopy(datastream.dp.descriptor))", "Package(descriptor=datastream.dp.descriptor)"))
+# (dropping dataflows' deepcopy of the upstream descriptor is an *equivalent* mutant: datapackage.Package copies its descriptor itself)
 mut('C01-conditional-reprocesses-source', (P + 'conditional.py', "            return flow.datastream(ds)\n", "            return flow.datastream(self.source)\n"))
 # ---- C03
 F = P + 'dumpers/formats/'
